@@ -537,6 +537,20 @@ func (t *relTotals) roundTripFlag(stream string, doc JV, ec *EvalCase) {
 			"v": d1, "rt": d2})
 		return
 	}
+	// the round trip through every decode path — the serialization object, encoding/json into a
+	// fresh and into a previously used destination, the streaming reader — is the same value
+	pv, pe, pn := decodeFlagPaths(e1)
+	for i := range pv {
+		if pe[i] != nil {
+			t.violation(stream, "re-encoded flag is not accepted by decode path "+pn[i]+": "+pe[i].Error(), map[string]any{"doc": docText(doc), "encoded": string(e1)})
+			return
+		}
+		if di := flagDumpJSON(&pv[i]) + deepSuffix(&pv[i]); di != d1 {
+			t.violation(stream, "decode(encode(v)) depends on the decode path: "+pn[0]+" vs "+pn[i], map[string]any{"doc": docText(doc), "encoded1": string(e1),
+				"v": d1, "rt": di})
+			return
+		}
+	}
 	t.sample(map[string]any{"doc": docText(doc), "canonical": string(e1)})
 	t.flagEvalEquivalence(stream, doc, ec, &v, &v2)
 }
@@ -642,6 +656,18 @@ func (t *relTotals) roundTripSegment(stream string, doc JV) {
 		t.violation(stream, "decode(encode(v)) is not a fixed point after one step (segment)", map[string]any{"doc": docText(doc), "encoded1": string(e1), "encoded2": string(e2),
 			"v": json.RawMessage(segDumpJSON(&v2)), "rt": json.RawMessage(segDumpJSON(&v3))})
 		return
+	}
+	pv, pe, pn := decodeSegmentPaths(e1)
+	for i := range pv {
+		if pe[i] != nil {
+			t.violation(stream, "re-encoded segment is not accepted by decode path "+pn[i]+": "+pe[i].Error(), map[string]any{"doc": docText(doc), "encoded": string(e1)})
+			return
+		}
+		if segDumpJSON(&pv[i])+deepSuffix(&pv[i]) != segDumpJSON(&v2)+deepSuffix(&v2) {
+			t.violation(stream, "decode(encode(v)) depends on the decode path (segment): "+pn[0]+" vs "+pn[i], map[string]any{"doc": docText(doc), "encoded1": string(e1),
+				"v": json.RawMessage(segDumpJSON(&v2)), "rt": json.RawMessage(segDumpJSON(&pv[i]))})
+			return
+		}
 	}
 	t.segmentEvalEquivalence(stream, doc, &v, &v2)
 }
